@@ -240,6 +240,56 @@ func gitExec(c *Ctx, op string) {
 	if _, e := os.Lstat(filepath.Join(base, "cache", "git", "fileset", "012", "345", missing.Hash)); e == nil {
 		c.PropFail("git-missing-commit", "a shelf was created for a commit the repository lacks", op)
 	}
+	// every commit at all later repository states, from the same process and the same warehouse address: the repository
+	// gains a commit after the unpacks above; that commit must unpack too
+	if later != "detach" {
+		os.WriteFile(filepath.Join(repo, "added-later.txt"), []byte("later "+target), 0644)
+		gitCmd(repo, "add", "added-later.txt")
+		gitCmd(repo, "commit", "-q", "-m", "later")
+		if nh, e := gitCmd(repo, "rev-parse", "HEAD"); e == nil && len(strings.TrimSpace(nh)) == 40 {
+			nid := api.WareID{Type: "git", Hash: strings.TrimSpace(nh)}
+			d5 := filepath.Join(base, "dst5")
+			_, lerr, lpan := safeCall(func() (api.WareID, error) {
+				return gittrans.Unpack(context.Background(), nid, d5, uf, rio.Placement_Direct, wh, rio.Monitor{})
+			})
+			c.H("later-commit")
+			if lpan != "" {
+				c.PropFail("git-panic", "commit added after an earlier unpack: "+lpan, op)
+			} else if lerr != nil {
+				c.PropFail("git-later-commit", "a commit added to the repository after an earlier unpack from the same address cannot be unpacked: "+lerr.Error(), op)
+			} else if b, e := os.ReadFile(filepath.Join(d5, "added-later.txt")); e != nil || string(b) != "later "+target {
+				c.PropFail("git-later-commit", "the unpack of a commit added later does not show that commit's tree", op)
+			}
+		}
+	}
+	// C20: a local warehouse that is itself a clone (has an origin) and lacks the requested commit must not be touched
+	// (no fetch into it): snapshot before / after
+	if later != "detach" {
+		clone := filepath.Join(base, "clone")
+		if _, e := gitCmd(base, "clone", "-q", repo, clone); e == nil {
+			os.WriteFile(filepath.Join(repo, "upstream-only.txt"), []byte("u"), 0644)
+			gitCmd(repo, "add", "upstream-only.txt")
+			gitCmd(repo, "commit", "-q", "-m", "upstream only")
+			if uh, e := gitCmd(repo, "rev-parse", "HEAD"); e == nil && len(strings.TrimSpace(uh)) == 40 {
+				before, _ := Snapshot(clone)
+				uid := api.WareID{Type: "git", Hash: strings.TrimSpace(uh)}
+				cwh := []api.WarehouseLocation{api.WarehouseLocation("file://" + clone + "/.git")}
+				_, cerr, cpan := safeCall(func() (api.WareID, error) {
+					return gittrans.Unpack(context.Background(), uid, filepath.Join(base, "dst6"), uf, rio.Placement_Direct, cwh, rio.Monitor{})
+				})
+				after, _ := Snapshot(clone)
+				c.H("clone-lacking")
+				if cpan != "" {
+					c.PropFail("git-panic", "commit absent from a cloned warehouse: "+cpan, op)
+				} else if cerr == nil || catOf(cerr) != "rio-ware-not-found" {
+					c.PropFail("git-missing-commit", fmt.Sprintf("a commit the (cloned) repository lacks gave %v instead of rio-ware-not-found", cerr), op)
+				}
+				if before.Digest(true) != after.Digest(true) {
+					c.PropFail("warehouse-mutated", "unpack modified the git warehouse it read from: "+DiffFilesets(before, after, true), op)
+				}
+			}
+		}
+	}
 	// ids that name objects of the repository which are not commits (root tree, a blob, an annotated tag): the
 	// repository lacks such a *commit*: ware-not-found, no panic, nothing cached
 	gitCmd(repo, "tag", "-a", "-m", "annotated", "vtag", target)
